@@ -300,7 +300,7 @@ func builtTypes(fn *ssa.Function, seen map[*ssa.Function]bool) (typs map[string]
 
 func typeKey(t types.Type) string {
 	if n := namedOf(t); n != nil {
-		return n.Obj().Name()
+		return canonName(n.Obj())
 	}
 	return types.TypeString(t, nil)
 }
